@@ -40,3 +40,4 @@ SPEC = {'id': 'C43',
                'of a current member in the current generation refreshes the session in every phase. Correspondence on virtual time with clock advances around '
                'the thresholds (+-1 ms); implementation-side oracle with black-box bookkeeping of refresh times and requested session timeouts. Liveness is '
                'relative to cleanup ticks.'}
+SPEC['assumptions'].append("after a failover cleanupGroups only visits groups that some request has already loaded into the new coordinator's memory (c.groups); modelled faithfully: [Cleanup] with nothing in memory is a no-op, so C43_expired_removed / C43_laggers_removed are stated for a group that is in memory. The property's quantifier (timings of heartbeats and joins) has no failover; consequence outside it: a group none of whose members ever contacts the new coordinator stays in the store (DescribeGroups/ListGroups still show it) until a request for it arrives, then the next tick expires its members")
